@@ -16,6 +16,6 @@ CONSTANTS
   NZero = 0
   MaxBal = 2
   UMax = 5
-INVARIANTS TypeOK CanClose LedgerShape Conservation HeldSigsValid TagSeparation IssuedMatchesLedger TokenOnlyAfterRevocation ClosedOnUnrevoked
+INVARIANTS TypeOK CanClose LedgerShape Conservation HeldSigsValid TagSeparation IssuedMatchesLedger TokenOnlyAfterRevocation ClosedOnUnrevoked MerchantExposureBounded
 PROPERTIES RefusedIsInert ReleaseOnlyOnAccept RefusedStartInert TokenIffOpens RestoreStutters ReplayRefused FaultRefused HonestAccepted
 CHECK_DEADLOCK FALSE
